@@ -88,6 +88,19 @@ CHECKS = {
 
 NA_REASON = "not claimed"
 
+# sentences appended to the descriptions (machinery shared by several checks)
+HIST = (" Caller histories: module CallHistory models a caller that reuses its input buffer and overwrites or keeps results, with an honest and three "
+        "flawed implementations (TLC: honest correct, each flaw exposed within three calls); all histories of three calls over three inputs x {own, keep} "
+        "written by TLC (CallHistoryGen) are replayed on the real functions and every call is judged by the same trace specification. The drivers keep "
+        "the caller's buffer discipline for all other events too (reused input buffers with canaries, results overwritten or kept, repeated calls).")
+CONC = " Concurrent phases (several goroutines, child processes for first use) are compared with the sequential answers and judged by the trace specification."
+WB = (" Events that call unexported functions or instantiate unexported types only search: a rejection there counts together with a rejection at the "
+      "exported API, after a directed API-level campaign on the deviating parameters, or - beyond the reach of the API - when the same function conforms on "
+      "all reachable white-box events (vlib.settle_whitebox); otherwise the leg is listed under skipped_legs.")
+EXTRA = {"C03": HIST + CONC, "C04": HIST + CONC + WB, "C05": HIST + CONC + WB, "C09": HIST + CONC, "C10": HIST, "C14": HIST, "C15": HIST + WB, "C19": HIST,
+         "C16": CONC + WB, "C11": CONC + WB, "C12": CONC + WB, "C17": CONC + WB, "C08": CONC + WB, "C06": CONC, "C18": CONC, "C01": CONC, "C20": WB}
+
+
 def main():
     props = [json.loads(l)["id"] for l in open(os.path.join(V, "properties.jsonl"))]
     checks = []
@@ -102,7 +115,7 @@ def main():
             evidence_file="evidence/%s.json" % pid,
             replay_cmd_template="bin/check %s --replay {path}" % pid,
             engine="tlc",
-            level_claimed=dict(category=c["cat"], text=c["text"], design_ref=c["ref"]),
+            level_claimed=dict(category=c["cat"], text=c["text"] + EXTRA.get(pid, ""), design_ref=c["ref"]),
             level_note=c["note"], technique=c["tech"]))
     hooks_commits = []
     hp = os.path.join(V, "hooks_commits.txt")
